@@ -34,3 +34,13 @@ package query
 //@   ensures same_length: len(result) == len(pb)
 //@   ensures typed_by_the_tag: all(k, 0, len(pb), dec_type_ok(pb[k], result[k]))
 //@   modifies nothing
+
+// ---- C15: every tag pair of a streamed point's id is decoded, whatever its value ----
+// encodeTags writes keys then values, NUL separated; an empty value is how a remote shard says "this series does
+// not carry that GROUP BY dimension" and must come back as a key with an empty value, not be dropped.
+//@ func decodeTags
+//@   props C15
+//@   nosafety
+//@   ghost stored int = 0
+//@   at after mapupdate#1: ghost stored = stored + 1
+//@   loop 1 invariant every_pair_is_stored: 0 <= i && stored == i
